@@ -205,6 +205,11 @@ def level_diff(prog, rng, wd):
             return None
         if dfa is None:
             dfa = o.dctx.dfa
+        import rtdiff
+        probs = rtdiff.decl_width_problems(o)
+        if probs:
+            # a level at which a declared type cannot hold what the code stores in it behaves differently from the others
+            return {"mismatch": True, "input": "", "variant_a": ["-O1"], "variant_b": v, "declared_width": probs}
         b, err = cdriver.build(o, os.path.join(wd, f"l{i}"))
         if b is None:
             return {"build_error": err, "variant": v}
